@@ -132,13 +132,54 @@ fn universe_full(rng: &mut Rng, tid: &[u8; 20], n: usize) -> Vec<UNode> {
     u
 }
 
+/// A few public IP addresses X, each with a family of ids that are all BEP42-secure for X with ONE 21-bit prefix (same r), so
+/// the whole family lives in one bucket, which fills up.  Every id of a family appears at X (secure; the rule admits one of
+/// them at a time), at an address of its own (not secure there) and sometimes at X under another port: the per-IP rules, the
+/// update of a known id from another address, the full bucket and the stale head all meet in one place.
+fn universe_shared(rng: &mut Rng, n: usize) -> Vec<UNode> {
+    let mut u: Vec<UNode> = vec![];
+    let fams = 2usize;
+    let _ = n;
+    let per = 24; // more ids than a bucket holds
+    for f in 0..fams {
+        let x = Ipv4Addr::new(70 + 40 * f as u8 + rng.below(30) as u8, 1 + rng.below(250) as u8, rng.below(250) as u8, 1 + rng.below(250) as u8);
+        let r = rng.below(8) as u8;
+        let ids: Vec<[u8; 20]> = (0..per)
+            .map(|_| {
+                let mut fill = rng.id();
+                fill[19] = (fill[19] & 0xf8) | r;
+                crypto::bep42_id(x, fill)
+            })
+            .collect();
+        let mut fam: Vec<UNode> = vec![];
+        for (i, id) in ids.iter().enumerate() {
+            let own = Ipv4Addr::new(130 + f as u8, 1 + (i / 200) as u8, 7, 1 + (i % 200) as u8);
+            fam.push(UNode { id: *id, addr: SocketAddrV4::new(own, 6881), sec: crypto::bep42_valid(id, own) });
+            if i == 0 || rng.chance(1, 2) {
+                fam.push(UNode { id: *id, addr: SocketAddrV4::new(x, 6881), sec: crypto::bep42_valid(id, x) });
+            }
+            if rng.chance(1, 6) {
+                fam.push(UNode { id: *id, addr: SocketAddrV4::new(x, 6882), sec: crypto::bep42_valid(id, x) });
+            }
+        }
+        // the first node of the universe is the first to be added: a family member at X, the head of its bucket from then on
+        let first = fam.iter().position(|n| *n.addr.ip() == x).unwrap_or(0);
+        fam.swap(0, first);
+        u.extend(fam);
+    }
+    u
+}
+
 pub fn behaviour(b: u64, rng: &mut Rng, out: &mut Out, big: bool, big_hi: u64) -> (u64, Value) {
     v::reset_clock();
     let tid = rng.id();
     // every other big behaviour fills buckets up
+    // ... and every fourth one has families of secure ids that share an address and a prefix
+    let shared = big && b % 4 == 3;
     let full = big && b % 2 == 1;
     let n = if full { rng.range(48, 72) as usize } else if big { rng.range(big_hi / 2, big_hi) as usize } else { rng.range(4, 45) as usize };
-    let u = if full { universe_full(rng, &tid, n) } else { universe(rng, &tid, n, if big { 1 + (b % 2) * 2 } else { b }) };
+    let u = if shared { universe_shared(rng, n) } else if full { universe_full(rng, &tid, n) } else { universe(rng, &tid, n, if big { 1 + (b % 2) * 2 } else { b }) };
+    let n = u.len();
     let mut index = HashMap::new();
     for (i, x) in u.iter().enumerate() {
         index.entry((x.id, x.addr)).or_insert(i);
@@ -151,9 +192,17 @@ pub fn behaviour(b: u64, rng: &mut Rng, out: &mut Out, big: bool, big_hi: u64) -
     let mut sample_ops = vec![];
     for step in 0..nops {
         // full: after the initial adds, more adds against the full buckets, ageing across the staleness boundary, removals, closest()
-        let w = if big && step < n as u64 { 0 } else if full { *rng.pick(&[0u64, 0, 0, 56, 64, 64, 80, 80, 80, 80, 95]) } else if big { 77 + rng.below(23) } else { rng.below(100) };
+        let w = if big && step < n as u64 { 0 } else if shared { *rng.pick(&[0u64, 0, 0, 0, 0, 0, 56, 64, 64, 80, 95]) } else if full { *rng.pick(&[0u64, 0, 0, 56, 64, 64, 80, 80, 80, 80, 95]) } else if big { 77 + rng.below(23) } else { rng.below(100) };
         let ev = if w < 55 {
-            let i = if big && step < n as u64 { step as usize } else { rng.below(u.len() as u64) as usize };
+            let i = if big && step < n as u64 {
+                step as usize
+            } else if shared && rng.chance(2, 3) {
+                // a family member at its shared address
+                let at_x: Vec<usize> = (0..u.len()).filter(|&i| u[i].addr.ip().octets()[0] < 130).collect();
+                *rng.pick(&at_x)
+            } else {
+                rng.below(u.len() as u64) as usize
+            };
             let ret = table.add(Node::new(Id::from(u[index[&(u[i].id, u[i].addr)]].id), u[i].addr));
             json!({"e":"op","op":"add","n":index[&(u[i].id, u[i].addr)] + 1,"ret":ret})
         } else if w < 63 {
@@ -161,7 +210,7 @@ pub fn behaviour(b: u64, rng: &mut Rng, out: &mut Out, big: bool, big_hi: u64) -
             table.remove(&Id::from(u[i].id));
             json!({"e":"op","op":"remove","n":i + 1})
         } else if w < 73 {
-            let ms = *rng.pick(&[1000u64, 60_000, 300_000, 899_999, 900_000, 900_001, 960_000]);
+            let ms = if shared { *rng.pick(&[1000u64, 300_000, 900_000, 900_001, 960_000, 960_000]) } else { *rng.pick(&[1000u64, 60_000, 300_000, 899_999, 900_000, 900_001, 960_000]) };
             v::advance(Duration::from_millis(ms));
             json!({"e":"op","op":"advance","ms":ms})
         } else if w < 77 {
